@@ -476,6 +476,10 @@ def rule_D5(ctx) -> None:
         assume = {is604: pep604, is_enum: enum, is_dt: dt, has_origin: origin is not None, attr_err: origin is None}
         if origin is not None:
             b[A(T, "__origin__")] = SymName(origin)
+        # typing.get_origin(t): the origin of a generic alias, types.UnionType for `X | None`, None for a plain class
+        go = SymName(origin) if origin is not None else SymName("_types_UnionType") if pep604 else None
+        for f_ in (A(N("typing"), "get_origin"), N("get_origin")):
+            b[CALL(f_, T)] = go
         return b, assume
 
     shapes = {
@@ -502,7 +506,8 @@ def rule_D5(ctx) -> None:
                 rets.add(f"<{p.outcome}>")
                 continue
             # atoms about raising must agree with the scenario: an AttributeError from t.__origin__ only without an origin
-            rets.add(show(p.value))
+            v_ = p.value
+            rets.add(str(v_[1]) if v_[0] == "c" and type(v_[1]).__name__ == "SymName" else show(v_))
         name = f"default-gen[{shape if shape != 'PEP 604 union' else 'PEP 604 union recognised'}]"
         want_txt = show(T) if expected == "$T" else expected
         ok = bool(rets) and all((r == want_txt) if expected == "$T" else (r.endswith(expected) or r == expected) for r in rets)
